@@ -146,6 +146,11 @@ func (st *State) check(kind, text string, pos token.Pos, goal Term) {
 		case "index", "slice", "nil", "div0", "typeassert", "panic", "overflow", "writable", "closed", "nonblocking":
 			st.assume(goal)
 			return
+		case "pre@callsite":
+			// flag nosafety: a functional-only unit - callee preconditions are assumed too (recorded as an assumption)
+			st.eng().assumes["unit "+st.u.key+" is checked with `flag nosafety`: run-time checks and callee preconditions on its paths are assumed, only its own postconditions and invariants are decided"] = true
+			st.assume(goal)
+			return
 		}
 	}
 	st.u.addObl(st, kind, text, pos, goal, false)
